@@ -498,7 +498,7 @@ func lastLines(s string, n int) string {
 
 func registerIsolation() {
 	Register("C10-cases", func(c *Ctx) {
-		treesFor(c, true, func(t []*Ins) {
+		treesFor(c, func(t []*Ins) {
 			src := programSource(t)
 			var prog *scriggo.Program
 			var berr error
